@@ -19,7 +19,8 @@ ASSUME = [
     "(SETEVENTS without HS_DESC, answered in a step of its own) is outstanding",
     "scripts reject_retry / none_relisten: listen() is called again on the same endpoint object - after Tor refused the service (everything "
     "again with a new local listener), and after the port object of a successful listen() was stopped (the service exists: Tor is not "
-    "asked again and the listener is bound on the local port the service forwards to)",
+    "asked again and the listener is bound on the local port the service forwards to; none_relisten_busy: that port cannot be bound any "
+    "more: listen fails with the bind error and leaves nothing open)",
     "fault cancel_wait: the caller cancels the Deferred listen() returned (as a timeout put on it would) during the descriptor wait: "
     "listen must fail (once the subscription has been given up) and close the local listener, never hand out a port object",
     "every configuration x fault is also run with another HS_DESC listener on the same connection (the application's own): giving up the "
